@@ -524,6 +524,32 @@ Definition schema_int (checked : bool) (min : option Z) (l : intlit) : intres :=
        end.
 
 (* ============================================================================================ *)
+(* 6b'. duplicated top level keys: what is validated vs what is loaded (N9)                      *)
+(* ============================================================================================ *)
+(* A member of the schema's root object, in text order: its key as written, the key json.Unmarshal
+   folds it to (case-insensitive field matching), and whether its content passes the JSON schema
+   of that section. *)
+Record member := mkM { m_exact : nat; m_fold : nat; m_valid : bool }.
+(* gojsonschema decodes the document first: of literally duplicated keys it sees the last *)
+Definition seen (name : nat) (root : list member) : option member :=
+  find (fun m => Nat.eqb (m_exact m) name) (rev root).
+(* json.Unmarshal decodes every member whose folded key is the field's into the same struct, one
+   over another *)
+Definition loaded (fname : nat) (root : list member) : list member :=
+  filter (fun m => Nat.eqb (m_fold m) fname) root.
+(* checkTopLevelKeys (fix 53ef0bb): no two members with the same folded key *)
+Fixpoint nodup_fold (root : list member) : bool :=
+  match root with
+  | [] => true
+  | m :: r => negb (existsb (fun x => Nat.eqb (m_fold x) (m_fold m)) r) && nodup_fold r
+  end.
+(* SchemaValidate for a required section [name]; [checked] = Gen.Safety
+   schema_validate_checks_top_level_keys *)
+Definition section_accepted (checked : bool) (name : nat) (root : list member) : bool :=
+  match seen name root with Some m => m_valid m | None => false end
+  && (if checked then nodup_fold root else true).
+
+(* ============================================================================================ *)
 (* 6c. idr/query.go wrappers over the xpath engine; javascript result classification             *)
 (* ============================================================================================ *)
 (* What Expr.Select plus iterating the result does for a compiled expression on a tree: the engine
